@@ -537,7 +537,9 @@ def _initialize_state_vars(network):
 
 			# Initialize inbound order pipeline. (Exclude external demand.)
 			for s in n.successors():
-				for l in range(s.get_attribute('order_lead_time', prod_ind) or 0):
+				# (The pipeline has order_lead_time + 1 slots if the successor orders this product from this node,
+				# and a single slot otherwise, in which case there are no initial orders.)
+				for l in range(len(n.state_vars[0].inbound_order_pipeline[s.index][prod_ind]) - 1):
 					n.state_vars[0].inbound_order_pipeline[s.index][prod_ind][l] = s.get_attribute('initial_orders', prod_ind) or 0
 
 		# State variables indexed by product at predecessor nodes.
